@@ -15,6 +15,8 @@ TECH.update({
  "C13":"rapid generation of schemas in a compile matrix; oracle = go build + go vet on emitted packages, Node type-stripping import of emitted TypeScript; IR-level shrinking",
 })
 TECH["C02"]="rapid property-based testing of the emitted Go server with raw HTTP requests; oracle = independent reference request binder (URL + body -> expected message or 400)"
+TECH["C09"]="rapid property-based testing of the emitted Go server with raw HTTP: header value sets vs an independent reference header validator and merge semantics"
+TECH["C10"]="rapid property-based testing through the generated Go client: error source x error hook behaviour x content type against the documented error contract"
 TEXT={
  "C12":("Generated-input search: every rule x placement cell of the documented catalogue is injected into rapid-drawn valid schemas and judged at the process boundary of the real plugins; the converse is checked on every base schema. Exploration, not proof: cells are enumerated, surroundings sampled.","§5 C12"),
  "C14":("Differential property test over rapid-drawn schemas: byte identity of same-named files, plus behavioural equality of server-only and client-only builds on generated values. Exploration.","§5 C14"),
@@ -28,6 +30,8 @@ TEXT.update({
  "C13":("Every emitted package (go-http only, go-client only, both; with and without mock) is built and vetted with the analyzers go test runs; every emitted .ts module is imported in Node 22. Exploration over a compile matrix of annotation x cardinality x naming.","§5 C13"),
 })
 TEXT["C02"]=("For every RPC with URL-bound fields rapid draws request lines (valid / invalid / grey URL values per kind, encodings, missing parameters) x bodies x content types; the handler-visible request or the 400 ValidationError is compared with a reference binder written from the documented contract. Exploration with value shrinking.","§5 C02")
+TEXT["C09"]=("For every RPC with declared headers rapid draws header value sets (absent, empty, must-accept, must-reject, grey per type/format) and body validity; dispatch / 400-with-one-violation-per-offender is judged by a reference validator H. Exploration with shrinking.","§5 C09")
+TEXT["C10"]=("rapid draws an error source, a hook behaviour and a content type per call; status, headers, body (decoded in the request's content type) and the Go client's error value are compared with the documented contract; violation paths come from running the reference validator on the same request. Exploration.","§5 C10")
 NOTE={
  "C12":"Trusted: schema generator + protodesc gate stand in for protoc; error text naming the offender is the 'names the offender' criterion.",
  "C14":"Trusted: protoc-gen-go, Go toolchain, protovalidate stand-in (not exercised by codecs).",
@@ -41,6 +45,8 @@ NOTE.update({
  "C13":"Trusted: Go toolchain; Node 22 type stripping detects syntax/load errors only (no tsc offline); stand-in protovalidate has the real API surface used by emitted code.",
 })
 NOTE["C02"]="Trusted: reference binder B judges only clearly valid / clearly invalid URL spellings; in-memory HTTP; TS server half is exercised by C08's Node runs, not here."
+NOTE["C09"]="Trusted: must-accept/must-reject sets derived from RFC 4122 / RFC 3339 / sebuf docs; grey values not judged; TS server half exercised in C08."
+NOTE["C10"]="Trusted: stand-in protovalidate (standard-rule subset) produces the rule violations on both sides; wrapped errors are judged as plain errors (they are not themselves protobuf messages); TS client half exercised in C08."
 claimed=sorted(TECH)
 checks=[]
 for p in claimed:
